@@ -29,6 +29,7 @@ def draw(seed, i):
            "chunk_size": rng.choice([16384, 16384, 1000, 64]),
            "window": -1.0 if faultfree else rng.choice([-1.0, 0.0, 0.0, 0.02, 0.2]),
            "imagesize": rng.choice([800, 1200, 320]),
+           "prior_fetch": rng.random() < 0.12,  # the process has fetched (this book) before
            "conf": {"api_request_limit": rng.choice([1, 2, 3, 5, 15, 50, rng.randint(1, 50)]),
                     "api_result_limit": rng.choice([1, 2, 3, 10, 50, 500, rng.randint(1, 50)]),
                     "rvlimit": rng.choice([1, 2, 3, 10, 50, 500]),
